@@ -513,6 +513,13 @@ func (E *Engine) fnWrites(fn *ssa.Function, actuals []ssa.Value, bindings []ssa.
 			w.all = true
 			return
 		}
+		if pkg != nil && pkg.Path() == "maps" {
+			switch originOf(fn).Name() {
+			case "Copy", "DeleteFunc", "Insert":
+				w.all = true
+				return
+			}
+		}
 		if E.isNoEffect(name, pkg) {
 			return
 		}
